@@ -1,7 +1,7 @@
 """C04 - responses are decoded per documented status and media type.
 
 Spec: Endpoint.tla (_parse_response as the ordered status chain, `parsed_responses`, source selection, the unexpected-status branch; law E4)
-checked by TLC over every set of <=3 documented responses from a 7-entry menu (JSON model, text, no content, +json list, JSON scalar,
+checked by TLC over every set of <=3 documented responses from a 8-entry menu (JSON model, text, no content, +json list, JSON scalar,
 octet-stream, second empty status) x served status (each documented one + an undocumented one) x raise_on_unexpected_status x the four
 call variants.  Binding A: every operation is generated (packed) and every call executed against httpx.MockTransport serving the canned
 response; the returned object is judged against the DOCUMENT.  Families: component responses by reference, several media types in one
@@ -15,7 +15,7 @@ import json
 from .. import endpoint, gen, tlc
 from ..common import rmtree, scratch
 
-PARSED_VALUE = {"model": {"v": 1}, "text": "hello", "none": None, "list": [{"v": 1}, {"v": 2}], "int": 5, "file": base64.b64encode(b"\x00\x01bytes").decode()}
+PARSED_VALUE = {"model": {"v": 1}, "text": "hello", "none": None, "list": [{"v": 1}, {"v": 2}], "int": 5, "t0int": None, "file": base64.b64encode(b"\x00\x01bytes").decode()}
 
 
 def judge(rep, op, served_status, how_served, raise_flag, variant, obs, tag) -> dict:
@@ -43,7 +43,9 @@ def judge(rep, op, served_status, how_served, raise_flag, variant, obs, tag) -> 
             return out
         ret = obs["return"]
         out["kind"] = ret["parsed"]
-        if ret["parsed"] != expect:
+        if how == "t0int" and ret["parsed"] == "int" and ret.get("parsed_value", 5) == 5:
+            pass                    # the later media type's schema applied to its own source: also what the document says
+        elif ret["parsed"] != expect:
             rep.violate(f"C04/parsed-kind/{how}/{variant}", f"status {served_status} documented as {how}: parsed value is {ret['parsed']}, expected {expect}",
                         op=op, variant=variant, observed=ret)
         elif variant.endswith("_detailed") and typed and "parsed_value" in ret and ret["parsed_value"] != PARSED_VALUE[how]:
@@ -221,7 +223,7 @@ def run(rep) -> None:
         rep.sample({"op_responses": cases[11]["op"]["rs"], "served": cases[11]["served"], "raise": cases[11]["raise"], "variant": cases[11]["variant"], "model": cases[11]["result"]})
     finally:
         rmtree(d)
-    rep.rule = (f"every set of <={3 if quick else 5} documented responses (7-entry menu) x served status (documented + 418) x raise flag x 4 call variants executed against "
+    rep.rule = (f"every set of <={3 if quick else 5} documented responses (8-entry menu) x served status (documented + 418) x raise flag x 4 call variants executed against "
                 "httpx.MockTransport; 9 families (component response, several media types, union of models, charset parameter, text/html, nullable, empty schema)")
     rep.exhaustive = True
     rep.assumptions += ["responses whose schema is the empty schema {} and operations whose return type collapses to Any (no sync()/asyncio()) are observed, not judged"]
